@@ -342,6 +342,24 @@ def run(ctx) -> None:
     q = queue_bookkeeping(ctx, RB, RD, RR)
     skip_decision(ctx, RS, q)
 
+    # ---- the deque under the event queue is changed only through the queue's own primitives: a rewrite from outside bypasses _get and
+    # leaves _last_item pointing at an item that is no longer queued (every later equal item is dropped)
+    ROWN = ctx.rule("C16/queue-internals-private", "no code outside the queue classes reads or writes the `queue` / `mutex` internals of an event queue", floor=1)
+    qcls = {"SkipRepeatsQueue"} | set(P.subclasses("SkipRepeatsQueue"))
+    outside = []
+    for m_ in P.modules.values():
+        for c_ in [n for n in ast.walk(m_.tree) if isinstance(n, ast.ClassDef)] + [None]:
+            if c_ is not None and c_.name in qcls:
+                continue
+            body_ = c_.body if c_ is not None else [n for n in m_.tree.body if isinstance(n, (ast.FunctionDef, ast.AsyncFunctionDef))]
+            for fn_ in [n for n in body_ if isinstance(n, (ast.FunctionDef, ast.AsyncFunctionDef))]:
+                for n in ast.walk(fn_):
+                    if isinstance(n, ast.Attribute) and n.attr in ("queue", "mutex", "not_empty", "not_full", "unfinished_tasks") and "queue" in ast.unparse(n.value).lower():
+                        outside.append((m_.relpath, n.lineno, ast.unparse(n)))
+    for rel_, ln_, txt_ in outside:
+        ctx.viol(ROWN, f"`{txt_}`", f"`{txt_}` reaches into the queue's internals from outside the queue class: items changed there bypass _put/_get and the remembered last item no longer describes the tail", f"{rel_}:{ln_}")
+    if not outside:
+        ctx.ok(ROWN, f"{len(P.modules)} modules scanned: the event queue's internals are touched only by the queue classes", P.cls("SkipRepeatsQueue").loc)
     # ---- event equality
     evm = P.module("watchdog.events")
     base = evm.classes.get("FileSystemEvent")
